@@ -134,6 +134,19 @@ def build_events(desc, shift=0, session_order=None, queue=None, late=False, evs=
     if event_objs is not None:  # event objects of an earlier simulation (and with them its EV objects), handed to another simulator
         events = list(event_objs)
         evs = [e.ev for e in events if hasattr(e, "ev")]
+    if desc.get("bad_batch") and not late:
+        # the batch as first assembled contains one thing that is not an event (a bare EV someone forgot to wrap): add_events raises
+        # part-way, the caller catches the error, sees how many events got in, and adds the rest one by one
+        q_ = queue if queue is not None else EventQueue()
+        n0_ = len(q_)
+        k_ = len(events) // 2
+        try:
+            q_.add_events(events[:k_] + [object()] + events[k_:])
+        except (AttributeError, TypeError):
+            pass
+        for e_ in events[len(q_) - n0_:]:
+            q_.add_event(e_)
+        return q_, evs
     if late:  # the caller fills the queue only after the simulator has been constructed on it
         return (queue if queue is not None else EventQueue()), evs, events
     if queue is not None:  # an existing (e.g. drained) queue object is refilled and used again
